@@ -3,10 +3,13 @@
 pub mod c02;
 pub mod c04;
 pub mod c06;
+pub mod c07;
 pub mod c11;
+pub mod c13;
 pub mod c14;
 pub mod c18;
 pub mod c19;
+pub mod c20;
 
 use crate::cfg::{gen_cfg, Cfg};
 use crate::engine::{self, Spec};
@@ -182,6 +185,31 @@ pub fn dispatch(a: &Args) -> Option<(Acc, RunMeta)> {
         "C19" => {
             let acc = c19::run(a);
             Some((acc, meta(a, "per case: a directory and two files (upper-only, lower-only or copied-up on overlays) on Mem/Phys/Alt/Ovl/Alt(Ovl)/Ovl[Alt] configurations; 3-9 setter calls over the three fields in random order with values from {epoch, +1ns, sub-second extremes, 2001, 2023, 2096, year 9999, before the epoch} (host-calibrated for PhysicalFS); metadata before/after each setter (no reads in between): the set field round-trips exactly, other timestamps/len/type unchanged, failures must be NotSupported and change nothing; adapter metadata equals the served entry's own metadata; appends preserve `created` on memory-backed entries; bytes compared at the end; distinct = distinct (field, entry kind, placement, config family, value)", &["PhysicalFS time values are first calibrated on the host: only values the OS round-trips exactly are demanded"])))
+        }
+        "C07" => {
+            let acc = c07::run(a);
+            Some((acc, meta(a, "per history: altroot at P (depth 0-3) over Mem / Phys / Ovl / another altroot, decoys in the underlying filesystem next to P (siblings, prefix-twins of every ancestor, same names at the underlying root, files outside a PhysicalFS root); 6-18 untyped operations whose paths are obtained through hostile join expressions ('../' chains above the root, absolute restarts, './', '//', 'zz/../') that the reference resolver maps to the intended path; monitors after every step: (a) every call crossing into the underlying filesystem names P or a path below P, (b) nothing outside P (and outside the PhysicalFS root directory) changed, (c) altroot view == subtree below P re-rooted, (d) outcome, error kind, return value and resulting tree equal those of the translated operation on a twin underlying filesystem; distinct = distinct observable states of the underlying filesystem", ENGINE_ASSUMPTIONS)))
+        }
+        "C20" => {
+            let acc = c20::run(a);
+            let mut m = meta(a, "sampled cases (configuration from {Mem, Phys, Alt(Mem), Ovl 2-3 layers with generated pre-population, Alt(Ovl), Ovl[Alt(Mem),Phys], Ovl[Phys,Mem]}, a generated prefix history of 0-6 steps, one operation — composites create_dir_all/remove_dir_all/copy_file/move_file/copy_dir/move_dir/walk_dir/read_to_string and every primitive/observer through the adapters); for each case the fault-free run counts the N calls made into the wrapped filesystems (every filesystem of the stack is wrapped), then for EVERY k in 1..N the pre-state is rebuilt on fresh filesystems, the k-th call returns an injected I/O error, and the result + snapshot (injection off) are compared with the fault-free full effect / value; second dimension: the k-th handle read/write/flush fails; complete over k per case (fault enumeration), cases are sampled; distinct = distinct (operation, target class, configuration shape, failed method and layer, k)", &["the fault-free run of the implementation defines the full effect (its correctness is C01/C09/C11's subject)", "an Err result is accepted with any state as long as no lower layer was touched"]);
+            m.level = "fault_enumeration";
+            Some((acc, m))
+        }
+        "C13" => {
+            let mut d = Domain::untyped();
+            d.keep_root = false;
+            d.root_targets = true;
+            d.rich_scripts = true;
+            d.append_seeks = true;
+            d.extreme_scripts = true;
+            let mut acc = engine::run(&spec(a, "c13-any", a.n(3000, 60000), (10, 30), d.clone(), cfg_any, true, None));
+            acc.merge(engine::run(&spec(a, "c13-ovl", a.n(1000, 20000), (10, 30), d, cfg_overlay_top, true, None)));
+            acc.merge(par_run(a, "c13-handles", a.n(15000, 300000), |a, idx, acc| c14::run_case(a, "c13-handles", idx, true, acc)));
+            acc.merge(c13::run_dedicated(a));
+            acc.merge(c18::run(a));
+            acc.merge(c06::run(a).0);
+            Some((acc, meta(a, "catch_unwind + panic hook around every library call of: (1) unrestricted histories (all operations on all paths incl. root targets and root removal, wrong types, write scripts with seeks, read scripts with offsets i64::MIN..i64::MAX / u64::MAX) on all configurations; (2) handle scripts with extreme offsets on Mem/Phys/Alt/Ovl handles; (3) handles used after their file / parent directory was removed, replaced or moved; (4) PhysicalFS over directories prepared with std::fs (non-UTF-8 names, dangling symlinks, symlink loops, self links); (5) every operation on every path of the EmbeddedFS fixtures; (6) the join sweep; (7) the async port (same histories through AsyncVfsPath on a tokio current-thread executor); distinct = distinct observable states / scripts / scenarios", &["copy_dir/move_dir into the source's own subtree is never generated (documented non-termination)", "OverlayFS::new(&[]) is the documented panic and is never called", "dev profile: overflow checks and debug assertions on; thorough also runs the release profile"])))
         }
         "C11" => {
             let acc = c11::run(a);
